@@ -5,10 +5,15 @@
    event list): clause 401 (exact request, message kept), clauses 403/404 (after every event a recovering session does not
    expect the number of a message it keeps, nor a number beyond the range it is recovering: the stash has been drained and
    recovery ends when the range is covered — the recovery invariant RI, ResendInvProofs.v) and clause 406 (timers leave
-   the recovery state alone) never fail on a model trace.  Clauses 402 (no spurious request while recovering) and 405 (no
-   kept application message dropped) are `_partial`: evaluated on every trace by the same predicate. *)
+   the recovery state alone) never fail on a model trace.  Clause 402 (while recovering, a ResendRequest is created only as
+   the next chunk at the expected number) never fails on a trace whose events do not end disconnected with frames still
+   buffered and in which the application does not itself send a ResendRequest (ChunkProofs.v; both provisos are needed:
+   `_refuted` examples).  Clause 405 (no kept application message dropped) never fails on a trace whose directly processed
+   messages are well addressed (KeptProofs.v; the proviso is needed because the predicate's own record of what is kept can
+   be wrong otherwise: `_refuted` example). *)
 From Coq Require Import ZArith List Bool.
-From QF Require Import Base.Bytes Session.Types Session.Model Session.Spec Session.LocalProofs Session.C01Proofs Session.TraceProofs Session.RecoveryProofs Session.ReactionProofs Session.TgProofs Session.ResendInvProofs.
+From QF Require Import Base.Bytes Session.Types Session.Model Session.Spec Session.LocalProofs Session.C01Proofs Session.FrameProofs Session.TraceProofs Session.RecoveryProofs Session.ReactionProofs Session.TgProofs Session.ResendInvProofs
+  Session.NoReqProofs Session.ChunkProofs Session.TjProofs Session.KeptProofs.
 Import ListNotations.
 Open Scope Z_scope.
 
@@ -72,3 +77,109 @@ Proof. exact c04_recovery_invariant_never_fails. Qed.
 
 Theorem c04_recovery_invariant_reachable : forall c es, Forall RI (run_trace es (init_sess c)).
 Proof. exact trace_ri. Qed.
+
+(* ---------------------------------------------------------------------------------------------------------------------
+   Clause 402: no ResendRequest while recovering other than the next chunk. *)
+
+(* the reachable-state invariant behind "chunk size configured": a non-zero current chunk end implies ResendRequestChunkSize <> 0 *)
+Theorem c04_chunk_end_implies_chunk_size_reachable : forall c es, Forall CI (run_trace es (init_sess c)).
+Proof. exact trace_ci. Qed.
+
+(* STEP LEVEL.  From any state satisfying the reachable-state invariants in which the session is recovering [ce = current
+   chunk end, re = range end], an event that does not end disconnected with frames buffered and is not an application-sent
+   ResendRequest either logs no ToAdmin callback for a ResendRequest at all, or logs exactly one, and then: a chunk size is
+   configured, ce <> 0, ce <= expected number <= re, and the newest message on the wire is a ResendRequest whose BeginSeqNo
+   is the expected number. *)
+Theorem c04_request_only_as_next_chunk : forall s e stash ce re,
+  Boundary s -> RI s -> CI s -> unwrap_pending (s_st s) = SResend stash ce re -> c04_quiet s e ->
+  rrf (s_cbs (step s e)) = []
+  \/ (rrf (s_cbs (step s e)) = [CbToAdmin T_RESENDREQ] /\ c_chunk (s_cfg s) <> 0 /\ ce <> 0
+      /\ ce <= s_tgt (step s e) /\ s_tgt (step s e) <= re
+      /\ exists rr rest, s_wire (step s e) = rr :: rest /\ o_type rr = T_RESENDREQ
+                         /\ field_of 7 (o_body rr) = Some (itoa (s_tgt (step s e)))).
+Proof. exact step_req. Qed.
+
+(* TRACE LEVEL.  For every configuration and every event list such that, along the run, no event starts with frames buffered
+   and ends disconnected (`c04_quiet`: the inbound buffer is empty before the event or the session is still connected after
+   it) and the application never sends a ResendRequest itself, clause 402 of c04_check never fails. *)
+Theorem c04_no_spurious_request_on_quiet_traces : forall c es,
+  quiet_trace es (init_sess c) ->
+  free_of [402] (c04_check c (combine es (map obs_of (run_trace es (init_sess c))))) = true.
+Proof. exact c04_only_chunk_requests_while_recovering. Qed.
+
+(* ... in particular on every trace in which frames are always processed directly (no EArrive) and the application sends no
+   ResendRequest: a purely syntactic condition on the event list *)
+Theorem c04_no_spurious_request_on_unbuffered_traces : forall c es,
+  Forall c04_plain_event es ->
+  free_of [402] (c04_check c (combine es (map obs_of (run_trace es (init_sess c))))) = true.
+Proof. exact c04_only_chunk_requests_plain. Qed.
+
+(* the hypotheses are satisfiable on a trace that does create a chunk request while recovering (gap 2..9, chunk size 2:
+   request [2,3]; after Heartbeat 3 the next chunk [4,5] is requested) ... *)
+Example c04_quiet_trace_example : quiet_trace c04x_chunk_trace (init_sess (c04x_cfg 2)).
+Proof. exact c04x_chunk_trace_quiet. Qed.
+Example c04_plain_trace_example : Forall c04_plain_event c04x_chunk_trace.
+Proof. exact c04x_chunk_trace_plain. Qed.
+Example c04_chunk_trace_creates_requests :
+  map (fun o => (ob_st (snd o), map (fun w => (o_type w, o_body w)) (ob_wire (snd o)))) (c04x_run (c04x_cfg 2) c04x_chunk_trace)
+  = [(ShLogon, []);
+     (ShInSession, [(T_LOGON, [(98, [48]); (108, itoa 30)])]);
+     (ShResend true [10] 3 9, [(T_RESENDREQ, [(7, itoa 2); (16, itoa 3)])]);
+     (ShResend true [10] 3 9, []);
+     (ShResend true [10] 5 9, [(T_RESENDREQ, [(7, itoa 4); (16, itoa 5)])])].
+Proof. exact c04x_chunk_trace_requests. Qed.
+(* ... and on a trace with buffered frames that stays connected *)
+Example c04_quiet_buffered_trace_example : quiet_trace c04x_buffered_trace (init_sess (c04x_cfg 2)).
+Proof. exact c04x_buffered_trace_quiet. Qed.
+
+(* REFUTED without the provisos: (a) an application-sent ResendRequest while recovering, nothing ever buffered;
+   (b) drain after disconnect, no application ResendRequest: two chunk requests created in one event. *)
+Theorem c04_no_spurious_request_app_resend_refuted :
+  exists c es, Forall (fun e => match e with EArrive _ => False | _ => True end) es
+    /\ c04_check c (combine es (map obs_of (run_trace es (init_sess c)))) = [(3%nat, 402)].
+Proof. exact c04_402_app_resend_request_refuted. Qed.
+Theorem c04_no_spurious_request_drain_after_disconnect_refuted :
+  exists c es, Forall (fun e => match e with EAppSend _ _ _ => False | _ => True end) es
+    /\ c04_check c (combine es (map obs_of (run_trace es (init_sess c)))) = [(7%nat, 402)].
+Proof. exact c04_402_drain_after_disconnect_refuted. Qed.
+
+(* ---------------------------------------------------------------------------------------------------------------------
+   Clause 405: no kept application message is dropped. *)
+
+(* MODEL LEVEL (resendState.FixMsgIn, every message m, every stash l0).  If the expected number passes k in this call, every
+   entry kept under k is the application message mk which passes the header checks and the validator, m is not a
+   SequenceReset jumping beyond k and no kept SequenceReset numbered in [expected, k) jumps beyond k, then FromApp was called
+   for number k in this call, or the store was reset. *)
+Theorem c04_kept_message_handed_over : forall s l0 ce re m s' next' k mk,
+  unwrap_pending (s_st s) = SResend (Some l0) ce re -> RI s ->
+  resend_state_fix_msg_in s (Some l0) ce re m = (s', next') ->
+  In k (keys l0) -> (forall x, In (k, x) l0 -> x = mk) ->
+  is_admin (mi_type mk) = false -> hdr_ok (s_cfg s) mk -> mi_valid mk = VAccept ->
+  ~ jumps m k -> (forall n0 x, In (n0, x) l0 -> s_tgt s <= n0 < k -> ~ jumps x k) ->
+  s_tgt s <= k -> k < s_tgt s' ->
+  delivered k (s_cbs s') = true \/ rst s' = true.
+Proof. exact rs_405. Qed.
+
+(* TRACE LEVEL.  For every configuration and every event list in which every directly processed message (EIncoming) is well
+   addressed (BeginString, CompIDs and SendingTime pass: hdr_ok), clause 405 of c04_check never fails: whenever the expected
+   number passes the number of a kept application message that would be accepted, that message was handed to the application
+   in that step (unless the peer skipped it with a SequenceReset or the store was reset). *)
+Theorem c04_no_kept_message_dropped_on_addressed_traces : forall c es,
+  Forall (c04_addressed c) es ->
+  free_of [405] (c04_check c (combine es (map obs_of (run_trace es (init_sess c))))) = true.
+Proof. exact c04_no_kept_message_dropped. Qed.
+
+(* the hypothesis holds on a trace in which a kept message is indeed delivered when the gap closes *)
+Example c04_addressed_trace_example : Forall (c04_addressed (c04x_cfg 0)) c04x_kept_trace.
+Proof. exact c04x_kept_trace_addressed. Qed.
+Example c04_kept_trace_delivers :
+  map (fun o => (ob_st (snd o), ob_tgt (snd o), delivered 4 (ob_cbs (snd o)))) (c04x_run (c04x_cfg 0) c04x_kept_trace)
+  = [(ShLogon, 1, false); (ShInSession, 2, false); (ShResend true [4] 0 3, 2, false); (ShResend true [4] 0 3, 3, false);
+     (ShInSession, 5, true)].
+Proof. exact c04x_kept_trace_delivers. Qed.
+
+(* REFUTED without the proviso: a mis-addressed message bearing the number of a kept message makes the predicate's record of
+   what is kept wrong, and clause 405 fires on a model trace although the engine dropped nothing the peer did not skip. *)
+Theorem c04_no_kept_message_dropped_unconditional_refuted :
+  exists c es, c04_check c (combine es (map obs_of (run_trace es (init_sess c)))) = [(8%nat, 405)].
+Proof. exact c04_405_misaddressed_refuted. Qed.
